@@ -28,6 +28,7 @@ type bcIns struct {
 	HoleGen  bool
 	Pos      token.Pos
 	VType    string // Go type of the operand expression
+	PushNil  bool   // oppush of the literal nil
 }
 
 // bcEffects: data-stack effect of each opcode in forward execution (pop count, push count), for the ops whose
